@@ -4,6 +4,10 @@
 #include "proto.h"
 #include <manif/manif.h>
 #include <manif/functions.h>
+#include <manif/algorithms/interpolation.h>
+#include <manif/algorithms/average.h>
+#include <manif/algorithms/decasteljau.h>
+#include <vector>
 
 namespace hx {
 
@@ -150,6 +154,54 @@ typename std::enable_if<S != 'c', bool>::type runMutAlias(const Req& r, Resp& R)
 template <class G, char S>
 typename std::enable_if<S == 'c', bool>::type runMutAlias(const Req&, Resp&) { return false; }
 
+// algorithms/{interpolation,average,decasteljau}.h
+template <class G>
+bool runAlgo(const Req& r, Resp& R) {
+  using T = typename G::Tangent;
+  constexpr int Rep = G::RepSize, DoF = G::DoF;
+  const std::string& op = r.op;
+  const std::vector<double>& a = r.a;
+  auto& out = R.out;
+  auto elem = [&](size_t off) { Operand<G, 'o'> x(a.data() + off); return x.g; };
+  auto tang = [&](size_t off) { TOperand<T, 'o'> t(a.data() + off); return t.t; };
+  if (op == "interp_slerp" && a.size() == (size_t)(2 * Rep + 1)) {
+    G g = manif::interpolate(elem(0), elem(Rep), a[2 * Rep], manif::INTERP_METHOD::SLERP);
+    pushM(out, g.coeffs()); return true;
+  }
+  if (op == "interp_cubic" && a.size() == (size_t)(2 * Rep + 1 + 2 * DoF)) {
+    G g = manif::interpolate(elem(0), elem(Rep), a[2 * Rep], manif::INTERP_METHOD::CUBIC,
+                             tang(2 * Rep + 1), tang(2 * Rep + 1 + DoF));
+    pushM(out, g.coeffs()); return true;
+  }
+  if (op == "interp_smooth" && a.size() == (size_t)(2 * Rep + 1 + 2 * DoF) && r.ints.size() == 1) {
+    G g = manif::interpolate_smooth(elem(0), elem(Rep), a[2 * Rep], (unsigned int)r.ints[0],
+                                    tang(2 * Rep + 1), tang(2 * Rep + 1 + DoF));
+    pushM(out, g.coeffs()); return true;
+  }
+  if ((op == "avg_bi" || op == "avg_w" || op == "avg_fl" || op == "avg_fr") && r.ints.size() == 1 &&
+      a.size() >= 1 && (a.size() - 1) % Rep == 0) {
+    std::vector<G> pts;
+    for (size_t i = 1; i + Rep <= a.size(); i += Rep) pts.push_back(elem(i));
+    const double eps = a[0]; const int mi = (int)r.ints[0];
+    G g = (op == "avg_bi") ? manif::average_biinvariant(pts, eps, mi)
+        : (op == "avg_w")  ? manif::average(pts, eps, mi)
+        : (op == "avg_fl") ? manif::average_frechet_left(pts, eps, mi)
+                           : manif::average_frechet_right(pts, eps, mi);
+    pushM(out, g.coeffs()); return true;
+  }
+  if (op == "phi" && a.size() == 1 && r.ints.size() == 1) {
+    out.push_back(manif::smoothing_phi(a[0], (std::size_t)r.ints[0])); return true;
+  }
+  if (op == "decasteljau" && r.ints.size() == 3 && a.size() % Rep == 0) {
+    std::vector<G> traj;
+    for (size_t i = 0; i + Rep <= a.size(); i += Rep) traj.push_back(elem(i));
+    std::vector<G> curve = manif::decasteljau(traj, (unsigned)r.ints[0], (unsigned)r.ints[1], r.ints[2] != 0);
+    for (const G& g : curve) pushM(out, g.coeffs());
+    return true;
+  }
+  return false;
+}
+
 template <class G, char S>
 void runS(const Req& r, Resp& R) {
   using T = typename G::Tangent;
@@ -163,6 +215,7 @@ void runS(const Req& r, Resp& R) {
   auto need = [&](size_t n) { return a.size() == n; };
   R.handled = true;
   if (runAlias<G, S>(r, R) || runMutAlias<G, S>(r, R)) return;
+  if (S == 'o' && runAlgo<G>(r, R)) return;
   if (op == "exp" && need(DoF)) {
     TOperand<T, S> t(a.data()); J j;
     G g = w0 ? t.get().exp(j) : t.get().exp();
@@ -267,6 +320,7 @@ void run(const Req& r, Resp& R) {
     }
   } catch (const manif::invalid_argument&) { R.handled = true; R.err = "invalid_argument"; R.out.clear(); }
   catch (const manif::runtime_error&) { R.handled = true; R.err = "runtime_error"; R.out.clear(); }
+  catch (const std::logic_error&) { R.handled = true; R.err = "logic_error"; R.out.clear(); }
   catch (const std::exception&) { R.handled = true; R.err = "other_exception"; R.out.clear(); }
 }
 
